@@ -34,9 +34,13 @@ TRUSTED = ["hand-written models coq/Misc/ExportPathModel.v and coq/Misc/CleanNam
 COQ_HEADER = "Require Import V.Misc.CleanNameModel V.Misc.ExportPathModel."
 
 SEGS = ["a", "b", "Cls", "Cls a", "..", "..", ".", "", "", "x.y", ".hidden", "...", "~", "a b", "con", "été", "\\", "a:b", "*",
-        "q" * 120, "w" * 300, " ", "_", "_..", "_."]
+        "q" * 120, "w" * 300, " ", "_", "_..", "_.",
+        # characters that a compatibility normalisation turns into separators and dots: fullwidth solidus and full stop, one and two dot leaders,
+        # fullwidth reverse solidus, division and fraction slashes
+        "..\uff0f..\uff0f..\uff0fesc", "\uff0e\uff0e", "\u2025", "\u2024\u2024", "\uff0fabs", "a\uff0fb", "\u2025\uff0f\u2025\uff0fx", "..\uff3c..", "\u2215x", "\u2044y"]
 METHS = ["m", "<init>", "run", "a/../../../x", "..", "../x", "/abs", "/", "x/y", "a/b/c", ".", "", "m.", "n ", "k" * 250,
-         "a/../../../../../../x", "Cls a/../../y", "q/../../../../z", "é", "con", "a\\b", "a:b?", "..\\..\\w"]
+         "a/../../../../../../x", "Cls a/../../y", "q/../../../../z", "é", "con", "a\\b", "a:b?", "..\\..\\w",
+         "..\uff0f..\uff0f..\uff0fm", "Cls a\uff0f..\uff0f..\uff0fy", "\u2025\uff0fx", "\uff0fabs"]
 OUTS = ["out", "out", "./out", "o/p", "out/", "ABS", "ABS/", "../c/out", "out/.", "o//p"]
 
 
@@ -64,6 +68,7 @@ def gen(rng, tier, ctx):
     # cooperating classes: a directory created for one class lets a '/'-bearing method name of another resolve
     cases.append(("out", [("LCls/Cls a/Q;", [("m", "V", ())]), ("LCls;", [("a/../../../x", "V", ())])]))
     cases.append(("out", [("L../../../esc;", [("m", "V", ())]), ("L/abs/olute;", [("../../../y", "V", ("I",))])]))
+    cases.append(("out", [("Lpkg/..\uff0f..\uff0f..\uff0fESCAPED;", [("m", "V", ())]), ("LCls/Cls a/Q;", [("m", "V", ())]), ("LCls;", [("a\uff0f..\uff0f..\uff0f..\uff0fx", "V", ())])]))
     for _ in range(n):
         classes = []
         names = set()
